@@ -372,19 +372,20 @@ CRASH_KIND = {'property_dependency_check': 'property_dependency_check',
 def link_observations(o):
     """What the private link fields say about the Section that holds `o` (o itself when it is a Section)."""
     holder = o if is_sec(o) else getattr(o, '_parent', None)
+    if holder is None or not is_sec(holder):
+        return []
+    if getattr(holder, '_merged', None) is not None:
+        return ['section-with-resolved-link-or-include']
     obs = []
-    if holder is not None and is_sec(holder):
-        if getattr(holder, '_merged', None) is not None:
-            obs.append('section-with-resolved-link-or-include')
-        elif holder._link is not None or holder._include is not None:
-            obs.append('section-with-unresolved-link-or-include')
-        anc, seen = holder._parent, set()
-        while anc is not None and id(anc) not in seen:
-            seen.add(id(anc))
-            if is_sec(anc) and getattr(anc, '_merged', None) is not None:
-                obs.append('below-section-with-resolved-link-or-include')
-                break
-            anc = getattr(anc, '_parent', None)
+    if holder._link is not None or holder._include is not None:
+        obs.append('section-with-unresolved-link-or-include')
+    anc, seen = holder._parent, set()
+    while anc is not None and id(anc) not in seen:
+        seen.add(id(anc))
+        if is_sec(anc) and getattr(anc, '_merged', None) is not None:
+            obs.append('below-section-with-resolved-link-or-include')
+            break
+        anc = getattr(anc, '_parent', None)
     return obs
 
 
@@ -403,8 +404,6 @@ def lost_situation(ex, got, key):
         return 'properties-directly-below-validated-section-not-examined' if key[0] in ex.root_props else None
     if not any(e.obj is o and getattr(e.validation_id, 'name', None) == kind for e in alone[1].errors):
         return None
-    if key[0] in ex.root_props:
-        return 'properties-directly-below-validated-section-not-examined'
     obs = link_observations(o)
     mine = None
     for (oid, k), n in got.items():
@@ -416,6 +415,9 @@ def lost_situation(ex, got, key):
         if content(t) == mine:
             obs.append('equal-content-object-elsewhere-got-the-issue')
             break
+    else:
+        if key[0] in ex.root_props:
+            return 'properties-directly-below-validated-section-not-examined'
     return 'issue-reported-when-object-validated-alone-is-missing-in-run: ' + ('+'.join(obs) if obs else 'plain-object')
 
 
@@ -426,14 +428,15 @@ def group_situation(ex, family, members, flagged, got_group):
         par = members[0]._parent
         if par is not None and is_sec(par):
             obs += ['parent-is-' + x for x in link_observations(par)[:1]]
-    mine = sorted(repr(content(m)) for m in members)
     kinds = ID_KINDS if family == 'ids' else (family,)
-    reported = set(id(o) for k in kinds for o in got_group.get(k, []))
-    for fam2, mem2, _unfl, _lab in ex.groups:
-        if fam2 != family or mem2 is members or len(mem2) != len(members):
+    reported = [o for k in kinds for o in got_group.get(k, [])]
+    flagged_ids = set(id(o) for _, o in flagged)
+    for m in members:
+        if id(m) in flagged_ids:
             continue
-        if sum(1 for m in mem2 if id(m) in reported) >= len(mem2) - 1 and sorted(repr(content(m)) for m in mem2) == mine:
-            obs.append('equal-content-group-elsewhere-got-the-issue')
+        mine = content(m)
+        if any(t is not m and type(t) is type(m) and content(t) == mine for t in reported):
+            obs.append('equal-content-object-elsewhere-got-the-issue')
             break
     return ' [%s]' % '+'.join(obs) if obs else ''
 
@@ -1133,6 +1136,8 @@ def focus_targets(doc, obj):
         out.append((o, 'Document.validate' if is_doc(o) else 'Validation'))
     if not any(o is doc for o, _ in out):
         out.insert(0, (doc, 'Document.validate'))
+    if is_doc(doc):
+        out.insert(1, (doc, 'Validation'))
     return out
 
 
